@@ -20,6 +20,8 @@ def refStep (r : Ref) : Op → Ref × List String
   | .sendStanza b => ({ r with accepted := r.accepted ++ [b] }, [b])
   | .sendRaw b    => ({ r with accepted := r.accepted ++ [b] }, [b])
   | .sendNonza b  => (r, [b])
+  | .req b        => (r, [b])
+  | .inbound      => (r, [])
   | .ack h =>
     let r' : Ref := { r with delivered := max r.delivered (min h r.accepted.length) }
     (r', if r'.held.isEmpty then [] else r'.held ++ [rBytes])
